@@ -317,12 +317,34 @@ package file
 // offset that the scan has seen (minimum); without saved offsets reading starts at 0.
 // (Called on a job that is not published yet: exclusive access stands for the lock.)
 
+// Tail: the position is the end of the file; only when the file is not empty does
+// reading start one byte earlier with the skip flag set (the worker then drops what
+// it reads up to the first newline - in an empty file that would be the first whole
+// line ever written).  Reset: the beginning, no skip flag.  (whence: 0 start, 2 end.)
+
 //@ func (*jobProvider).initJobOffset
 //@   option allow-exit yes
 //@   requires held(job.mu)
+//@   ghost nseek int = 0
+//@   ghost endOff int = 0
+//@   ghost nskip int = 0
+//@   ensures operation == offsetsOpTail ==> (nskip == 1) == (endOff > 0) && nseek == ite(endOff > 0, 2, 1)
+//@   ensures operation == offsetsOpReset ==> nskip == 0 && nseek == 1
+//@   ensures operation == offsetsOpContinue ==> nskip == 0
 //@   loop 1 iter-ensures minOffset <= offset#2
-//@   callee seek(off, whence, hint)
+//@   callee seek(off, whence, hint) (r)
 //@     preserves jobProvider
+//@     requires operation == offsetsOpTail && nseek == 0 ==> off == 0 && whence == 2
+//@     requires operation == offsetsOpTail && nseek == 1 ==> off == -1 && whence == 2 && endOff > 0
+//@     requires operation == offsetsOpTail ==> nseek <= 1
+//@     requires operation == offsetsOpReset ==> off == 0 && whence == 0 && nseek == 0
+//@     ensures r >= 0
+//@     set endOff := ite(nseek == 0, r, endOff)
+//@     set nseek := nseek + 1
+//@   callee Store(v)
+//@     requires operation == offsetsOpTail && endOff > 0 && v && nskip == 0
+//@     pure
+//@     set nskip := nskip + 1
 
 // ---------------------------------------------------------------------------
 // C03: a file that appears after the start phase is read from its beginning:
